@@ -126,8 +126,33 @@ func (a *ivAnalysis) get(st *ivState, v ssa.Value) ival {
 	}
 	switch x := v.(type) {
 	case *ssa.Convert:
-		// int conversions: keep if non-narrowing is unknown -> be conservative but keep small ranges
-		return a.get(st, x.X)
+		src := a.get(st, x.X)
+		sw, ssigned := widthOf(x.X.Type())
+		dw, dsigned := widthOf(x.Type())
+		if sw == 0 || dw == 0 {
+			return top
+		}
+		// value-preserving iff the source range fits the destination type
+		var lo, hi int64 = math.MinInt64, math.MaxInt64
+		if !dsigned {
+			lo = 0
+			if dw < 64 {
+				hi = int64(1)<<uint(dw) - 1
+			}
+		} else if dw < 64 {
+			lo, hi = -(int64(1) << uint(dw-1)), int64(1)<<uint(dw-1)-1
+		}
+		if !ssigned && sw == 64 && src.hi == math.MaxInt64 {
+			// unsigned 64-bit value with unknown upper bound may exceed MaxInt64: wraps when made signed
+			if dsigned {
+				return ival{lo, hi}
+			}
+			return ival{0, hi}
+		}
+		if src.lo >= lo && src.hi <= hi {
+			return src
+		}
+		return ival{lo, hi}
 	case *ssa.ChangeType:
 		return a.get(st, x.X)
 	case *ssa.Call:
@@ -147,6 +172,12 @@ func (a *ivAnalysis) get(st *ivState, v ssa.Value) ival {
 			}
 			return r
 		}
+	}
+	if w, signed := widthOf(v.Type()); w > 0 && !signed {
+		if w < 64 {
+			return ival{0, int64(1)<<uint(w) - 1}
+		}
+		return ival{0, math.MaxInt64}
 	}
 	return top
 }
